@@ -33,7 +33,8 @@ OCC = hs.floats(0.05, 1.0).map(lambda x: round(x, 6))
 def spec_st(draw):
     cell = [draw(FLT), draw(FLT), draw(FLT), draw(hs.one_of(hs.just(90.0), ANG)), draw(hs.one_of(hs.just(90.0), ANG)), draw(hs.one_of(hs.just(90.0), hs.just(120.0), ANG))]
     atoms = []
-    for _ in range(draw(hs.integers(1, 6))):
+    # a cell without atoms is accepted by both the reader and AddCrystal: generated too (about one crystal in seven)
+    for _ in range(draw(hs.integers(0, 6))):
         atoms.append((draw(hs.integers(1, 98)), draw(hs.one_of(hs.just(1.0), OCC)), draw(COORD), draw(COORD), draw(COORD)))
     return cell, atoms
 
@@ -57,7 +58,7 @@ def file_text(crystals, corruption=None, where=0):
     out = ["#F generated\n", "#C comment line\n", "\n"]
     for idx, (name, cell, atoms) in enumerate(crystals):
         c = corruption if idx == where else None
-        out.append("#S %d %s\n" % (max(a[0] for a in atoms), name) if c != "s-without-name" else "#S 5\n")
+        out.append("#S %d %s\n" % (max([a[0] for a in atoms] + [1]), name) if c != "s-without-name" else "#S 5\n")
         out.append("#UCOMMENT generated crystal\n")
         if c != "no-ucell":
             if c == "short-ucell":
@@ -76,6 +77,8 @@ def file_text(crystals, corruption=None, where=0):
                 out.append("%d %r abc %r %r\n" % (z, fr, y, zz))
             else:
                 out.append("%d %r %r %r %r\n" % (z, fr, x, y, zz))
+        if c == "bad-atom-row" and not atoms:
+            out.append("14 1.0 abc 0.5 0.5\n")
     out.append("#EOF\n")
     return "".join(out)
 
@@ -244,6 +247,24 @@ class Machine(RuleBasedStateMachine):
         os.unlink(path)
         if rv != 0 or err is None:
             self.fail("readfile:duplicate-accepted", "0 and error", dict(rv=rv, error=err))
+        self.failed_ops += 1
+
+    @rule(names=hs.lists(NAME, min_size=1, max_size=5, unique=True), specs=hs.lists(spec_st(), min_size=6, max_size=6), pos=hs.tuples(hs.integers(0, 4), hs.integers(0, 5)))
+    def readfile_repeats_itself(self, names, specs, pos):
+        """one file that defines the same new name twice (adjacent or not): rejected as a whole, collection unchanged"""
+        names = [n for n in names if n.encode() not in self.model]
+        if not names:
+            return
+        src_i = pos[0] % len(names)
+        seq = list(names)
+        seq.insert(pos[1] % (len(seq) + 1), names[src_i])
+        crystals = [(n, specs[i][0], specs[i][1]) for i, n in enumerate(seq)]
+        self.step("ReadFile(same name twice in one file: %r)" % seq)
+        path = self.write_file(file_text(crystals))
+        rv, err = L.call("Crystal_ReadFile", path.encode(), self.arr)
+        os.unlink(path)
+        if rv != 0 or err is None:
+            self.fail("readfile:infile-duplicate-accepted", "0 and error", dict(rv=rv, error=err))
         self.failed_ops += 1
 
     @rule(text=hs.sampled_from(["", "#F nothing here\n#C only comments\n", "\n\n", "#EOF\n"]))
